@@ -649,3 +649,62 @@ def _a_same(pm, v):
     s = float(f(x, h))
     arr = f(np.array([x, x * 0.5, x]), np.array([h, h, h]))
     return {"t": "obs", "a": _um(s), "b": _um(arr[2])}
+
+
+# ---- the whole receive path wired together: TcpClient/NetSource -> pipe -> Decode, virtual clock ----
+@reg("link.run")
+def _link_run(pm, v):
+    import time as _time
+    from pyModeS.streamer.source import NetSource
+    from pyModeS.streamer.decode import Decode
+
+    class Flag:
+        value = False
+
+    class Pipe:
+        def __init__(self):
+            self.sent = []
+
+        def send(self, d):
+            self.sent.append(d)
+
+    kind = v["kind"]
+    rx = v["rx"]
+    src = NetSource("localhost", 0, kind)
+    src.stop_flag = Flag()
+    src.raw_pipe_in = Pipe()
+    dec = Decode(latlon=(360.0 * rx[1] / 1048576, 360.0 * rx[2] / 1048576) if rx[0] else None)
+    read = {"beast": src.read_beast_buffer, "raw": src.read_raw_buffer}[kind]
+    wire = _wire(kind, v["frs"])
+    cuts = [0] + list(v["cuts"]) + [len(wire)]
+    real_time = _time.time
+    vnow = [0.0]
+    _time.time = lambda: vnow[0]
+    steps = []
+    try:
+        for k, (a, b) in enumerate(zip(cuts, cuts[1:])):
+            vnow[0] = v["times"][k] / 2.0
+            exc = 0
+            handed, sent = [], []
+            try:
+                src.buffer.extend(wire[a:b])
+                msgs = read()
+                before = len(src.raw_pipe_in.sent)
+                if msgs:
+                    src.handle_messages(msgs)
+                handed = [enc.text(m[0]) for m in (msgs or [])]
+                for bt in src.raw_pipe_in.sent[before:]:
+                    sent.append({"adsb": [list(bytes.fromhex(m)) for m in bt["adsb_msg"]],
+                                 "commb": [list(bytes.fromhex(m)) for m in bt["commb_msg"]]})
+                    dec.process_raw(bt["adsb_ts"], bt["adsb_msg"], bt["commb_ts"], bt["commb_msg"])
+            except Exception:  # noqa: BLE001
+                exc = 1
+            post, dup = _project(dec.get_aircraft()) if not exc else ([], 0)
+            for p in post:
+                p.pop("c", None)
+            steps.append({"n": b - a, "now": v["times"][k], "handed": handed, "sent": sent, "post": post, "exc": exc, "dup": dup})
+            if exc:
+                break
+    finally:
+        _time.time = real_time
+    return {"t": "steps", "v": steps}
